@@ -3749,25 +3749,45 @@ def jobs_record_project(tier):
     return [(h_record_project, a, 900) for a in q]
 
 
+FIELDS_SIG = '14getitem_fieldsERKSt6vectorINSt7__cxx1112basic_stringIcSt11char_traitsIcESaIcEEESaIS7_EE'
+
+
 @guard
-def h_list_project(cls, dims):
-    """getitem_field(name) of a list node: the list structure (number of lists, their lengths and which elements they hold, in order) is unchanged
-    and every element is replaced by what the content answers for *that* element - projection commutes with the list level"""
+def h_list_project(cls, dims, many=False):
+    """getitem_field(name) / getitem_fields(names) of a list node: the list structure (number of lists, their lengths and which elements they
+    hold, in order) is unchanged and every element is replaced by what the content answers for *that* element - projection commutes with the
+    list level"""
     lens0 = node_lens(cls, dims)
     nc = NodeCtx(['LOA', 'LA', 'RA', 'IDX', 'CNT', 'UTL', 'KD', 'IDS'], [], unwind=max(8, sum(lens0) + len(lens0) + 6))
     nc.m.eng.stubs.update(string_stubs(nc))
-    F = nc.derived_stub(BELOW_METHODS['getitem_field'][1], 'getitem_field')
+    what = 'getitem_fields' if many else 'getitem_field'
+    F = nc.derived_stub(FIELDS_SIG if many else BELOW_METHODS['getitem_field'][1], what)
     this, lists, starts, offs, short = list_node(nc, cls, dims)
-    kc = {}
-    _string_cells(kc, 0, 'key', 'k')
-    kp = nc.m.record('key', kc, const=True)
     nc.m.record('ret', {})
-    out = nc.m.call('_ZNK7awkward%s%s' % (short, BELOW_METHODS['getitem_field'][0]), [Ptr('ret', 0), this, kp])
+    if many:
+        cells = {}
+        for i, k in enumerate(('k', 'j')):
+            _string_cells(cells, 32 * i, 'keysbuf', k)
+        nc.m.record('keysbuf', cells, const=True)
+        kp = nc.m.record('keysvec', {0: (Ptr('keysbuf', 0), 8), 8: (Ptr('keysbuf', 64), 8), 16: (Ptr('keysbuf', 64), 8)}, const=True)
+        cands = sorted([f for mod_ in nc.m.eng.mods for f in mod_.func_src if f.startswith('_ZNK7awkward%s14getitem_fieldsERKSt6vector' % short)], key=len)
+        if not cands:
+            raise Unsupported('getitem_fields of %s not found in the IR' % cls)
+        out = nc.m.call(cands[0], [Ptr('ret', 0), this, kp])          # the shortest mangled name is the one-argument overload
+    else:
+        kc = {}
+        _string_cells(kc, 0, 'key', 'k')
+        kp = nc.m.record('key', kc, const=True)
+        out = nc.m.call('_ZNK7awkward%s%s' % (short, BELOW_METHODS['getitem_field'][0]), [Ptr('ret', 0), this, kp])
     obls = [('projection does not raise', out.raised)]
-    calls = [(pc, a) for pc, nm, a in out.trace if nm == 'getitem_field']
+    calls = [(pc, a) for pc, nm, a in out.trace if nm == what]
     obls.append(('the content is asked', z3.Not(z3.Or([pc for pc, _ in calls] + [z3.BoolVal(False)]))))
     for pc, a in calls:
-        obls.append(('the content is asked for the same field name', z3.And(pc, z3.BoolVal(_read_string(out.mem, a[0]) != 'k'))))
+        if many:
+            same = z3.Or([gg for gg, qq in nodeh.ptr_cases(a[0]) if qq.obj == 'keysvec'] + [z3.BoolVal(False)])
+            obls.append(('the content is asked for the same field names', z3.And(pc, z3.Not(same))))
+        else:
+            obls.append(('the content is asked for the same field name', z3.And(pc, z3.BoolVal(_read_string(out.mem, a[0]) != 'k'))))
     want = [[Elem(F(e.val)) for e in lst] for lst in lists]
     for g, res in nodeh.decode_cases(nc, out.mem, nc.m.cell('ret', 0)):
         if res is None:
@@ -3783,9 +3803,12 @@ def h_list_project(cls, dims):
         ntoks = head.split()
         cnt = int(ntoks[1])
         head = 'i64 %s i64 %s record 2 %d j k ' % (fullnative.ints(range(cnt)), fullnative.ints([500 + x for x in range(cnt)]), cnt) + ' '.join(ntoks[2 + cnt:]) + ' '
+        if many:
+            exp = [[{'k': 500 + x, 'j': x} for x in lst] for lst in inp]
+            return akrun_check(head + 'getfields 2 k j', exp, '%s %s of records::getitem_fields' % (cls, inp))
         exp = [[500 + x for x in lst] for lst in inp]
         return akrun_check(head + 'getfield k', exp, '%s %s of records::getitem_field' % (cls, inp))
-    return mdischarge(nc.m, '%s::getitem_field shape=%s' % (cls, ','.join(map(str, dims))), obls, [], replay=replay,
+    return mdischarge(nc.m, '%s::%s shape=%s' % (cls, what, ','.join(map(str, dims))), obls, [], replay=replay,
                       prefer=[nc.lencontent <= 24] + [o <= 20 for o in offs],
                       extra=dict(bounds='shape %s concrete (case split), origins and content length symbolic' % (dims,)))
 
@@ -3797,6 +3820,7 @@ def jobs_project(tier):
     for cls in ('ListOffsetArray64', 'ListArray64', 'RegularArray'):
         for d in (regs if cls == 'RegularArray' else shapes):
             js.append((h_list_project, (cls, d), 1800))
+            js.append((h_list_project, (cls, d, True), 1800))
     return js
 
 
